@@ -17,7 +17,7 @@ ASSUMPTIONS = [
     "case variants are exercised through the stream entry points (HashStreamFile, get_hash_stream, fobj_md5, file_md5)",
 ]
 MONITORS = "digest / passthrough bytes / byte count compared with hashlib on every evaluation"
-REQUIRED_COUNTERS = ["midway_digest_peeks", "streams_with_transient_read_failures", "transient_read_failures_retried", "interleaved_stream_pairs", "short_read_streams", "stream_checks", "fobj_md5_checks", "hash_file_checks", "dos2unix_variant_checks", "memfs_checks"]
+REQUIRED_COUNTERS = ["dos2unix_case_variant_checks", "midway_digest_peeks", "streams_with_transient_read_failures", "transient_read_failures_retried", "interleaved_stream_pairs", "short_read_streams", "stream_checks", "fobj_md5_checks", "hash_file_checks", "dos2unix_variant_checks", "memfs_checks"]
 
 PLAIN = ["md5", "sha1", "sha256", "sha512", "blake3", "sha224", "sha384"]
 VARIANTS = ["MD5", "Md5", "SHA256", "Sha256", "BLAKE3", "Blake3", "SHA1", "sHa512"]
@@ -154,10 +154,12 @@ def run_shard(ctx):
             is_text = _is_text_block(data[:512])
             for _rep in range(5):
                 res.evaluated()
-                name = rng.choice(PLAIN + VARIANTS) if rng.random() < 0.8 else "md5-dos2unix"
+                name = rng.choice(PLAIN + VARIANTS) if rng.random() < 0.8 else rng.choice(["md5-dos2unix"] * 4 + ["MD5-DOS2UNIX", "Md5-Dos2Unix"])
                 lname = name.lower()
+                if name != lname and lname == "md5-dos2unix":
+                    res.count("dos2unix_case_variant_checks")
                 entry = rng.choice(["stream", "get_hash_stream", "fobj_md5", "file_md5", "hash_file", "hash_file_memfs"])
-                if name in VARIANTS and entry.startswith("hash_file"):
+                if name != lname and entry.startswith("hash_file"):
                     entry = "file_md5"
                 kind, sizes = _read_sizes(rng, len(data))
                 if lname == "md5-dos2unix":
